@@ -64,6 +64,10 @@ TCEnd ==
      IN /\ m.primary = hdr.primary /\ m.tpc = hdr.tpc
         /\ m.txn[hdr.primary] = hdr.slots[hdr.primary].txn
         /\ IF m.txn[sec] # hdr.slots[sec].txn THEN m.from_sec /\ NonDurable(m.txn[sec]) ELSE UNCHANGED cvars
+  \* the header bytes on the storage are the durable header of the specification (nothing of this commit is
+  \* unsynced: what the backend holds is what a crash right now would leave)
+  /\ pend = <<>> => /\ Line.disk.primary = dgod.primary /\ Line.disk.tpc = dgod.tpc /\ Line.disk.rec = dgod.rec
+                     /\ Line.disk.slots[1].txn = dslots[1].txn /\ Line.disk.slots[2].txn = dslots[2].txn
   /\ explicit' = FALSE
 
 TMark ==
